@@ -201,6 +201,15 @@ func siteMatches(p *Program, pat string, in ssa.Instruction) (string, bool) {
 		return "", false
 	}
 	switch f[0] {
+	case "dyncall":
+		c, ok := in.(*ssa.Call)
+		if !ok || c.Call.StaticCallee() != nil || c.Call.IsInvoke() {
+			return "", false
+		}
+		if strings.HasSuffix(valuePath(c.Call.Value), "."+f[1]) || valuePath(c.Call.Value) == f[1] {
+			return "call through " + f[1], true
+		}
+		return "", false
 	case "call":
 		c, ok := in.(*ssa.Call)
 		if !ok {
@@ -519,6 +528,8 @@ func checkedBy(p *Program, r *siteRule, in ssa.Instruction, pat string) (bool, s
 func valuePath(v ssa.Value) string {
 	switch x := v.(type) {
 	case *ssa.Parameter:
+		return x.Name()
+	case *ssa.Builtin:
 		return x.Name()
 	case *ssa.FreeVar:
 		return x.Name()
